@@ -1,5 +1,6 @@
 import Tengo.Model.SpecValue
 import Tengo.Model.SpecCheck
+import Tengo.Model.Format
 /-!
 The reference interpreter (property C01): a fuel-indexed big-step evaluator over the AST, written
 from docs/tutorial.md, operators.md, runtime-types.md, builtins.md. Variables are named heap cells
@@ -283,6 +284,18 @@ def buildRangeDown (cur stop step : Int) : Nat → List Value
 def buildRange (start stop step : Int) (fuel : Nat) : List Value :=
   if start ≤ stop then buildRangeUp start stop step fuel else buildRangeDown start stop step fuel
 
+def formatNoOracle : Format.Oracle :=
+  { appendFloat := fun _ _ _ => none, floatStr := fun _ => none, floatInt := fun _ => none, quote := fun _ => none,
+    quoteAscii := fun _ => none, canBackquote := fun _ => none, quoteRune := fun _ => none,
+    quoteRuneAscii := fun _ => none, isPrint := fun _ => none }
+
+def formatArg : Value → Option Format.Arg
+  | .int n => some (.int (BitVec.ofInt 64 n))
+  | .str b => some (.str b)
+  | .bool b => some (.bool b)
+  | .bytes b => some (.bytes b)
+  | _ => none
+
 def callBuiltin (name : String) (args : List Value) : EM Value := do
   match isPred name (args.headD .undef) with
   | some b => if args.length != 1 then wrongArgs name else pure (.bool b)
@@ -417,6 +430,19 @@ def callBuiltin (name : String) (args : List Value) : EM Value := do
       | .str b => pure (.bytes b)
       | _ => pure (rest.headD .undef)
   | "string", [] | "int", [] | "float", [] | "char", [] | "bytes", [] => wrongArgs name
+  -- `format`: the formatter model of C17 (`Model.Format`) with an empty oracle, so every format that needs
+  -- strconv (floats, %q, %U) is unsupported here and left to C17; int/string/bool/bytes under the other
+  -- verbs, flags, width and precision are decided by the model
+  | "format", [] => wrongArgs name
+  | "format", [.str f] => pure (.str f)
+  | "format", (.str f) :: rest =>
+    match rest.mapM formatArg with
+    | none => eUnsup "format argument outside int/string/bool/bytes"
+    | some as =>
+      match Format.format formatNoOracle 2147483647 f as with
+      | .ok b => pure (.str b)
+      | .error _ => eUnsup "format needs the strconv oracle (C17)"
+  | "format", v :: _ => invalidArg name "format" "string" v
   | _, _ => eUnsup s!"builtin {name}"
 
 /-! ### evaluation -/
